@@ -46,6 +46,10 @@ pub struct Case {
     pub order: Vec<u8>,
     /// Final drop order of clients/listeners (permutation index 0..24).
     pub final_perm: u8,
+    /// The last cycle is not cleaned up: pending connects, queued (un-inspected) and held
+    /// requests and open handles are still there when clients and listeners are dropped.
+    #[serde(default)]
+    pub leave_pending: bool,
 }
 
 fn gcfg_c07() -> BoxedStrategy<GCfg> {
@@ -92,8 +96,9 @@ pub fn strategy(tier: Tier) -> BoxedStrategy<Case> {
         proptest::collection::vec(proptest::collection::vec(step_strategy(), 1..max_steps), 1..=max_cycles),
         proptest::collection::vec(any::<u8>(), 4..12),
         0u8..24,
+        prop_oneof![2 => Just(false), 1 => Just(true)],
     )
-        .prop_map(|(cfg_a, cfg_b, sched, cycles, order, final_perm)| Case { cfg_a, cfg_b, sched, cycles, order, final_perm })
+        .prop_map(|(cfg_a, cfg_b, sched, cycles, order, final_perm, leave_pending)| Case { cfg_a, cfg_b, sched, cycles, order, final_perm, leave_pending })
         .boxed()
 }
 
@@ -147,6 +152,7 @@ pub async fn execute(case: &Case) -> RunOut {
     let mut pairs: Vec<PairH> = Vec::new();
     let mut pendings: Vec<Pending> = Vec::new();
     let mut next_id = 1u32;
+    let mut left_pending = 0usize;
     let mut order_pos = 0usize;
     let mut next_order = |n: usize| -> usize {
         let b = case.order[order_pos % case.order.len()] as usize;
@@ -575,6 +581,14 @@ pub async fn execute(case: &Case) -> RunOut {
         if !out.fails.is_empty() {
             break;
         }
+        if case.leave_pending && ci + 1 == case.cycles.len() {
+            // Everything that is left goes away together with the clients and listeners below.
+            left_pending = pendings.iter().filter(|p| !p.resolved).count();
+            if left_pending > 0 {
+                out.classes.push("clients-dropped-with-unanswered-requests".into());
+            }
+            break;
+        }
         // End of cycle: drop everything that is left, in generated order.
         loop {
             let mut items: Vec<(usize, u8)> = Vec::new();
@@ -642,8 +656,14 @@ pub async fn execute(case: &Case) -> RunOut {
 
     // Final: drop clients and listeners in a generated order; both dispatchers must finish Ok
     // without the transport being closed.
-    drop(pairs);
-    drop(pendings);
+    // What the last cycle left behind is dropped before or after the clients and listeners.
+    let mut late: Option<(Vec<PairH>, Vec<Pending>)> = None;
+    if left_pending > 0 && next_order(2) == 1 {
+        late = Some((pairs, pendings));
+    } else {
+        drop(pairs);
+        drop(pendings);
+    }
     let mut perm: Vec<usize> = vec![0, 1, 2, 3];
     let mut k = case.final_perm as usize;
     let mut order = Vec::new();
@@ -663,6 +683,7 @@ pub async fn execute(case: &Case) -> RunOut {
             tokio::time::sleep(std::time::Duration::from_secs(1)).await;
         }
     }
+    drop(late);
     drop(allocs);
     let deadline = 1000 + settle_s * 10;
     for (i, r) in [run_a, run_b].into_iter().enumerate() {
